@@ -25,7 +25,8 @@ MP_ASSUME = BASE_ASSUME + [
 
 PROPS = {
     "C01": {"level": "exploration", "assumptions": MP_ASSUME,
-            "parts": [{"engine": "mp", "test": "TestVF_C01", "quick": (4, 1500), "thorough": (16, 25000)}]},
+            "parts": [{"engine": "mp", "test": "TestVF_C01", "quick": (4, 1500), "thorough": (16, 25000)},
+                      {"engine": "mp", "test": "TestVF_C01_Model", "quick": (4, 1000), "thorough": (16, 25000)}]},
     "C02": {"level": "exploration", "assumptions": MP_ASSUME,
             "parts": [{"engine": "mp", "test": "TestVF_C02", "quick": (4, 1500), "thorough": (16, 25000)}]},
     "C03": {"level": "exploration", "assumptions": MP_ASSUME,
@@ -52,8 +53,13 @@ PROPS = {
             "parts": [{"engine": "mp", "test": "TestVF_C08", "quick": (4, 1500), "thorough": (16, 40000)}]},
     "C09": {"level": "exploration", "assumptions": BASE_ASSUME + ["reading of 'content of any frame from before it': paired histories share the timeline (length, telemetry, resets) and differ only in pixels before the FFC period / reset; dynamic-threshold pairs have no reset before the end of the period (DESIGN.md C09)"],
             "parts": [{"engine": "mp", "test": "TestVF_C09", "quick": (4, 2500), "thorough": (16, 60000)}]},
+    "C13": {"level": "exploration", "assumptions": MP_ASSUME,
+            "parts": [{"engine": "mp", "test": "TestVF_C13_Proc", "quick": (4, 750), "thorough": (16, 20000)},
+                      {"engine": "e2e", "test": "TestVF_C13_Parser", "quick": (4, 2500), "thorough": (16, 50000)},
+                      {"engine": "e2e", "test": "TestVF_C13_Socket", "quick": (4, 25), "thorough": (16, 400), "shrinktime": "10s"}]},
     "C14": {"level": "exploration", "assumptions": BASE_ASSUME + ["camera descriptions are encoded with the same yaml.v1 Marshal call as cmd/leptond's sendCameraSpecs (which itself needs camera hardware); strings are single-line valid UTF-8"],
-            "parts": [{"engine": "hdr", "test": "TestVF_C14_Header", "quick": (4, 2500), "thorough": (16, 50000)}]},
+            "parts": [{"engine": "hdr", "test": "TestVF_C14_Header", "quick": (4, 2500), "thorough": (16, 50000)},
+                      {"engine": "e2e", "test": "TestVF_C14_Socket", "quick": (4, 25), "thorough": (16, 400), "shrinktime": "10s"}]},
     "C15": {"level": "exploration", "assumptions": BASE_ASSUME + ["background and threshold are read in-package from the detector; threshold tolerance +-1 for float accumulation"],
             "parts": [{"engine": "mp", "test": "TestVF_C15", "quick": (4, 1500), "thorough": (16, 40000)}]},
     "C11": {"level": "exploration", "assumptions": BASE_ASSUME + ["handleConn is driven over net.Pipe in lock step; no system D-Bus (calls to peer daemons fail fast and are ignored by the code); distinct recordings start in distinct milliseconds (the sender paces frames); altitude >= 0 (go-cptv does not store negative altitudes)"],
